@@ -182,6 +182,154 @@ def native_damage(ctx, field, newv):
         shutil.rmtree(work, ignore_errors=True)
 
 
+def check_any_item_count(ctx):
+    """the writer stores the number of items of a batch as a u32 without any limit of its own, so the reader must accept every count: a Start marker with an arbitrary
+    item count followed by the end of the file is an unterminated batch (discarded silently), never an error"""
+    ob = ctx.ob('roundtrip/any-item-count', 'JournalBatchReader::next: a Start marker is accepted for every item count 1..2^32-1 and every seqno (symbolic); followed by EOF or zeros it is a torn tail, '
+                'not an error - the reader imposes no limit the writer does not have', ['batch_reader::<impl>::next', 'entry::<impl>::decode_from'])
+    cnt = [z3.BitVec(f'start.count{i}', 8) for i in range(4)]
+    seq = [z3.BitVec(f'start.seqno{i}', 8) for i in range(8)]
+    image = [z3.BitVecVal(1, 8)] + cnt + seq
+    nonzero = z3.Or(*[c != 0 for c in cnt])
+    bad = []
+    for tail, length in (('eof', 13), ('zeros', 13 + 24)):
+        outs = J.run_reader(ctx, image, length, 13, max_batches=2, extra_pc=[nonzero])
+        for o in outs:
+            p = o['path']
+            r, m = ctx.sat(list(p.pc) + J.injectivity_axioms(), ob)
+            if r != z3.sat:
+                continue
+            ob.reach += 1
+            if o['end'] != 'none' or o['batches']:
+                n = sum(m.eval(c, model_completion=True).as_long() << (8 * i) for i, c in enumerate(cnt)) if m is not None else None
+                bad.append((tail, f'a batch announcing {n} items: the reader ends with {o["end"]} {p.notes[-1:]} after {len(o["batches"])} batches instead of treating the unterminated batch as a torn tail', n))
+                break
+        if bad:
+            break
+    if ob.reach == 0:
+        ob.status = 'undecided'; ob.detail = 'vacuous'
+    elif not bad:
+        ob.status = 'discharged'; ob.sample = {'paths': ob.reach}
+    else:
+        n = bad[0][2] or 70000
+        ctx.candidate(ob, 'journal-reader/item-count-limit', f'{ob.id}: {bad[0][1]}', confirm=lambda: native_big_batch(ctx, n))
+
+
+def native_big_batch(ctx, n):
+    """a committed batch with as many items as the counterexample announces (capped) must be recovered completely"""
+    sizes = sorted(set([min(max(n, 2), 300000), 70000]))
+    last = (False, None, 'not run')
+    for k in sizes:
+        L = ['dir $DIR/db', 'open workers=0', 'ks a', 'insert a 6b30 30', f'bigbatch a {k}', 'insert a 6b7a 7a', 'count a', 'close', 'open workers=0', 'ks a', 'count a', f'get a 6b30', 'close']
+        spath, out = ctx.run_scenario('\n'.join(L) + '\n', tag=f'bigbatch-{k}')
+        rs = [(c, r) for _i, c, r in out]
+        if any(c == 'CRASH' for c, _r in rs):
+            return True, spath, f'batch of {k} items: crash: ' + rs[-1][1][-200:]
+        opens = [r for c, r in rs if c == 'open']
+        counts = [r for c, r in rs if c == 'count']
+        if len(opens) > 1 and opens[1] != 'ok':
+            return True, spath, f'a committed batch of {k} items makes the next open fail with {opens[1]}'
+        if len(counts) == 2 and counts[0] != counts[1]:
+            return True, spath, f'a committed batch of {k} items is not recovered completely: {counts[0]} keys before the reopen, {counts[1]} after'
+        last = (False, spath, f'held natively (batches of {sizes} items)')
+    return last
+
+
+def check_error_propagates(ctx):
+    """what the callers of the batch reader do with a damaged complete batch (reported as Err by the reader): both recovery loops must refuse to open,
+    never skip the record or stop quietly and go on with later journals"""
+    from . import recov
+    for tag, kw, fns in (('active', dict(shape=((1, 0), (1, 0))), ['db::<impl>::recover']), ('sealed', dict(shape=(), sealed_shape=((1, 0), (1, 0))), ['recovery::recover_sealed_memtables'])):
+        ob = ctx.ob(f'damage/error-propagates-{tag}', f'recovery ({tag} journal): when the batch reader reports a damaged batch (checksum mismatch) at any position, open returns that error; '
+                    'nothing of the damaged batch or of later batches is applied and the open does not succeed', fns)
+        bad = []; gave_up = False
+        for at in (0, 1):
+            try:
+                ex, paths, env = recov.run_recover(ctx, n_ks=1, symbolic_kinds=False, reader_error_at=at, **kw)
+            except Exception as e:      # noqa
+                ob.status = 'undecided'; ob.detail = f'executor: {e!r}'; gave_up = True; break
+            inc = [p for p in paths if p.status in ('error', 'timeout', 'loop_bound')]
+            if inc:
+                ob.status = 'undecided'; ob.detail = f'executor: {inc[0].status} {inc[0].notes[-1:]}'; gave_up = True; break
+            for p in paths:
+                errs = [e for e in p.events if e.kind == 'READER_ERR']
+                if not errs or p.status not in ('returned', 'panic'):
+                    continue
+                ob.reach += 1
+                if p.status == 'returned' and ctx.sat(p.pc + [ret_is_ok(p)], ob)[0] == z3.sat:
+                    later = [e for e in p.events if e.kind == 'BATCH_READ' and e.idx > errs[0].idx]
+                    bad.append((p, f'the reader reported batch {at} of the {tag} journal as damaged, yet recovery succeeds' + (' and goes on applying later batches' if later else ' (the rest of the journal is dropped silently while later journals are kept)')))
+                    break
+            if bad:
+                break
+        if gave_up:
+            continue
+        if ob.reach == 0:
+            ob.status = 'undecided'; ob.detail = 'vacuous'
+        elif not bad:
+            ob.status = 'discharged'; ob.sample = {'paths': ob.reach}
+        else:
+            ctx.candidate(ob, f'recovery/{tag}-reader-error-swallowed', f'{ob.id}: {bad[0][1]}', confirm=(lambda t=tag: native_damage_sealed(ctx) if t == 'sealed' else native_damage(ctx, 'item', 0x55)))
+
+
+def native_damage_sealed(ctx):
+    """two journal files at open time (a lagging keyspace keeps the sealed one alive); one byte of a complete record of the SEALED journal is altered:
+    open must fail or show a prefix of the history"""
+    K = ['6b31', '6b32', '6b33', '6b34']
+    L = ['dir $DIR/db', 'open workers=0', 'rotation_threshold 0', 'ks a', 'ks b', 'insert b 6b31 7331', 'insert b 6b32 7332', 'insert a 6b31 31', 'rotate a', 'worker_drain',
+         'journal_count', 'insert b 6b33 7333', 'insert b 6b34 7334', 'close']
+    spath, out = ctx.run_scenario('\n'.join(L) + '\n', tag='dmg-sealed-base', keep_work=True)
+    work = ctx.last_work
+    try:
+        jc = [r for _i, c, r in out if c == 'journal_count']
+        if not jc or jc[0] != 'n=2':
+            return False, spath, f'could not produce a sealed journal ({jc})'
+        jn = os.path.join(work, 'db', '0.jnl')
+        data = open(jn, 'rb').read()
+        # second unit of the sealed journal = insert b k2 s2 : its value bytes are the last 2 bytes before the End marker
+        starts = []
+        i = 0
+        while i < len(data) and data[i] == 1:
+            starts.append(i)
+            cnt = int.from_bytes(data[i + 1:i + 5], 'little'); pos = i + 13
+            for _ in range(cnt):
+                if data[pos] == 2:
+                    kl = int.from_bytes(data[pos + 11:pos + 13], 'little'); vl = int.from_bytes(data[pos + 17:pos + 21], 'little'); pos += 21 + kl + vl
+                else:
+                    pos += 9
+            i = pos + 13
+        if len(starts) < 3:
+            return False, spath, f'could not parse the sealed journal ({starts})'
+        off = starts[2] - 13 - 1          # last value byte of the second unit
+        prefixes = []
+        hist = [('b', '6b31', '7331'), ('b', '6b32', '7332'), ('a', '6b31', '31'), ('b', '6b33', '7333'), ('b', '6b34', '7334')]
+        for n in range(len(hist) + 1):
+            a, b = {}, {}
+            for ks, k, v in hist[:n]:
+                (a if ks == 'a' else b)[k] = v
+            fm = lambda d: '[' + ','.join(f'{k}:{d[k]}' for k in sorted(d)) + ']'
+            prefixes.append((fm(a), fm(b)))
+        img = os.path.join(work, 'img-sealed')
+        shutil.copytree(os.path.join(work, 'db'), img)
+        with open(os.path.join(img, '0.jnl'), 'r+b') as fh:
+            fh.seek(off); fh.write(bytes([data[off] ^ 0x41]))
+        L2 = [f'dir {img}', 'open workers=0', 'ks a', 'ks b', 'dump a', 'dump b', 'close']
+        sp2, out2 = ctx.run_scenario('\n'.join(L2) + '\n', tag='dmg-sealed')
+        rs = [(c, r) for _i, c, r in out2]
+        if any(c == 'CRASH' for c, _r in rs):
+            return False, sp2, 'open panics on the damaged sealed journal (a crude refusal)'
+        opens = [r for c, r in rs if c == 'open']
+        if opens and opens[0] != 'ok':
+            return False, sp2, f'open refuses the damaged sealed journal: {opens[0]}'
+        dumps = [r for c, r in rs if c == 'dump']
+        if len(dumps) == 2 and (dumps[0], dumps[1]) not in prefixes:
+            return True, sp2, (f'one value byte of a complete record in the sealed journal 0.jnl altered: open succeeds with a={dumps[0]} b={dumps[1]}, which is the state of no prefix of the commit history '
+                               f'(newer commits are kept while an older one is dropped)')
+        return False, sp2, f'held natively (a={dumps[:1]} b={dumps[1:2]})'
+    finally:
+        shutil.rmtree(work, ignore_errors=True)
+
+
 def check_compression_choice(ctx):
     pat = r'writer::<impl>::write_raw$'
     ob = ctx.ob('compression/choice', 'Writer::write_raw: the stored compression tag is the configured type iff threshold > 0 ∧ value length ≥ threshold, else None', [pat])
@@ -442,6 +590,8 @@ def run(ctx):
     shapes = DMG_SHAPES_QUICK if ctx.tier == 'quick' else DMG_SHAPES_THOROUGH
     for i, sh in enumerate(shapes):
         check_damage(ctx, sh, i)
+    check_any_item_count(ctx)
+    check_error_propagates(ctx)
     check_compression_choice(ctx)
     check_lz4_coherent(ctx)
     if ctx.tier == 'thorough':
